@@ -16,11 +16,12 @@ func init() {
 
 // storeFacts identifies the store's tree type, its fields by role, constructors and getters.
 type storeFacts struct {
-	T      *types.Named // InMemory
-	St     *types.Struct
-	Fields map[string]int // role -> field index: pos, node, parent, namespaces, attributes, children
-	Ctors  map[*ssa.Function]ctorInfo
-	err    []string
+	T       *types.Named // InMemory
+	St      *types.Struct
+	Fields  map[string]int // role -> field index: pos, node, parent, namespaces, attributes, children
+	Ctors   map[*ssa.Function]ctorInfo
+	Wrapped map[*ssa.Call]bool // constructor calls inside wrapper constructors that pass the wrapper's own parameters on
+	err     []string
 }
 
 type ctorInfo struct {
@@ -125,6 +126,45 @@ func (w *World) StoreFacts() *storeFacts {
 			sf.Ctors[fn] = ci
 		}
 	})
+	// wrappers: a function returning *T that hands its own parameters on to a constructor for position, parent and
+	// node is a constructor itself (the position discipline is then checked where the wrapper is called)
+	sf.Wrapped = map[*ssa.Call]bool{}
+	for changed := true; changed; {
+		changed = false
+		w.forAllFuncs("store", func(fn *ssa.Function) {
+			if _, done := sf.Ctors[fn]; done || fn == entry {
+				return
+			}
+			r := fn.Signature.Results()
+			if r.Len() < 1 || !types.Identical(r.At(0).Type(), types.NewPointer(sf.T)) {
+				return
+			}
+			allInstrs(fn, func(in ssa.Instruction) {
+				c, ok := in.(*ssa.Call)
+				if !ok {
+					return
+				}
+				inner, isCtor := sf.Ctors[staticCallee(c)]
+				if !isCtor {
+					return
+				}
+				idxOf := func(v ssa.Value) int {
+					for i, pp := range fn.Params {
+						if ssa.Value(pp) == v {
+							return i
+						}
+					}
+					return -1
+				}
+				ci := ctorInfo{PosParam: idxOf(c.Call.Args[inner.PosParam]), ParentParam: idxOf(c.Call.Args[inner.ParentParam]), NodeParam: idxOf(c.Call.Args[inner.NodeParam])}
+				if ci.PosParam >= 0 && ci.ParentParam >= 0 && ci.NodeParam >= 0 {
+					sf.Ctors[fn] = ci
+					sf.Wrapped[c] = true
+					changed = true
+				}
+			})
+		})
+	}
 	if len(sf.Ctors) == 0 {
 		sf.err = append(sf.err, "no cursor constructors found")
 	}
@@ -274,7 +314,22 @@ func checkC10(w *World) {
 			if !local {
 				// identified by what is written through, not by the name of the enclosing function
 				from := "of unknown origin"
-				backSlice(fa.X, func(v ssa.Value) bool {
+				var visit func(v ssa.Value) bool
+				// elements copied into a local slice come from the source of the copy
+				throughCopy := func(v ssa.Value) {
+					if _, isMake := v.(*ssa.MakeSlice); !isMake {
+						return
+					}
+					for _, rr := range referrers(v) {
+						if cc, ok := rr.(*ssa.Call); ok {
+							if b, ok := cc.Call.Value.(*ssa.Builtin); ok && b.Name() == "copy" && cc.Call.Args[0] == v {
+								backSlice(cc.Call.Args[1], visit)
+							}
+						}
+					}
+				}
+				visit = func(v ssa.Value) bool {
+					throughCopy(v)
 					if u, ok := v.(*ssa.UnOp); ok {
 						if fa2, ok := u.X.(*ssa.FieldAddr); ok {
 							if pt, ok := fa2.X.Type().Underlying().(*types.Pointer); ok && types.Identical(pt.Elem(), sf.T) {
@@ -289,7 +344,8 @@ func checkC10(w *World) {
 						from = "received as a parameter"
 					}
 					return true
-				})
+				}
+				backSlice(fa.X, visit)
 				construct = fmt.Sprintf("store to the %s field of an existing cursor %s", role, from)
 			}
 			w.check(P, "R10.2", construct, st.Pos(), local, map[bool]string{true: "written through the object under construction", false: "written through an existing cursor (" + describe(fa.X) + "): a node that is already part of the tree changes its identity — positions stop being stable and unique"}[local])
@@ -354,7 +410,7 @@ func checkC10(w *World) {
 					return
 				}
 				ci, isCtor := sf.Ctors[staticCallee(c)]
-				if !isCtor {
+				if !isCtor || sf.Wrapped[c] {
 					return
 				}
 				calls = append(calls, ctorCall{c, c.Call.Args[ci.PosParam], fn})
